@@ -1448,7 +1448,7 @@ class DirectButler(Butler):  # numpydoc ignore=PR02
                     )
                     for dt in filtered_dataset_types:
                         refs.extend(query.datasets(dt, collections=name))
-        with self._datastore.transaction(), self._registry.transaction():
+        with self._datastore.transaction(), self._registry.transaction(savepoint=True):
             if unstore:
                 self._datastore.trash(refs)
             else:
@@ -1502,7 +1502,7 @@ class DirectButler(Butler):  # numpydoc ignore=PR02
         # mutating the Registry (it can _look_ at Datastore-specific things,
         # but shouldn't change them), and hence all operations here are
         # Registry operations.
-        with self._datastore.transaction(), self._registry.transaction():
+        with self._datastore.transaction(), self._registry.transaction(savepoint=True):
             if unstore:
                 self._datastore.trash(refs)
             if purge:
